@@ -192,7 +192,7 @@ pub fn run_scenario(seed: u64, idx: u64, n_enc: usize) -> Result<ScenOut, String
             Ok(ScenOut { kind, desc_hash, triggers, encodes, desc: json!({"profile": g.profile, "history": o.model.log, "base_hex": hex(&g.bytes)}) })
         }
         k if k.starts_with("plan:") => {
-            let (g, plan, _) = lower::gen_plan(&k[5..], &mut rng)?;
+            let (g, plan, _, _) = lower::gen_plan(&k[5..], &mut rng)?;
             plan_scenario(kind, g.bytes, plan, n_enc)
         }
         k if k.starts_with("sem:") => {
